@@ -1,4 +1,5 @@
 import KojenVerif.Lemmas.EngineUserPass
+import KojenVerif.Lemmas.EngineFor
 /-
   C17 — template engine: user tags, IF/ELSEIF/ELSE (and FOR) follow their documented rules.
 
@@ -89,6 +90,49 @@ theorem C17_noninterference (d d' : List (Str × Str)) (isStr : Str → Bool) (f
     · subst e; rw [hm] at hn; cases hn
     · exact hsame n e
 
+/-! ### FOR -/
+
+/-- **FOR.** What `innerexpand_for_loop`'s double loop emits for a parameter `csv` and the body
+    lines `snippet` (any text; `NoBoth`: no line carries FIRST and LAST together): the first line
+    with FIRST once, FIRST replaced by the first item; then for every item in list order every
+    line without FIRST / LAST, with EACH, each, NUM, ALPH replaced by the item, its camel form,
+    its zero-based index and its letter; then the first line with LAST once. -/
+theorem C17_for_once_per_item (csv : Str) (snippet : List Line) (hnb : NoBoth snippet)
+    (hnz : ∀ l ∈ snippet, ∀ v, pyReplace (T "<<<FIRST>>>") v l ≠ [] ∧ pyReplace (T "<<<LAST>>>") v l ≠ []) :
+    forProcess csv snippet =
+      ((snippet.find? isFirstL).map (pyReplace (T "<<<FIRST>>>") (strip ((forItems csv).head?.getD [])))).toList ++
+      ((enumFrom 0 (forItems csv)).map (fun p => (snippet.filter isRestL).map (applySubst (eachChain p.1 p.2)))).flatten ++
+      ((snippet.find? isLastL).map (pyReplace (T "<<<LAST>>>") (strip ((forItems csv).getLast?.getD [])))).toList :=
+  forProcess_eq csv snippet hnb hnz
+
+/-- the parameter of `<<<FOR_BEGIN=raw>>>` reaches the loop as written -/
+theorem C17_for_parameter (ws raw : Str) (hw : Clean ws) (hr : Clean raw) :
+    blockParam (Spec.delim ws (T "FOR_BEGIN=" ++ raw)) = raw := blockParam_for ws raw hw hr
+
+/-- a count is the list `_0_, _1_, …`; zero repeats nothing; a single word is rejected -/
+theorem C17_for_count (snippet : List Line) (raw : Str) (h1 : (find COMMA raw).isSome = false) (h2 : isNumeric (strip raw) = true)
+    (hne : raw ≠ []) :
+    forExpand snippet raw =
+      if toNat (strip raw) > 0 then
+        some (forProcess (((List.range (toNat (strip raw))).map (fun i => [US] ++ natToStr i ++ [US] ++ COMMA)).flatten) snippet)
+      else some [] := by
+  unfold forExpand
+  have : raw.isEmpty = false := by cases raw <;> simp_all
+  simp [this, h1, h2]
+
+theorem C17_for_rejects (snippet : List Line) (raw : Str) (h1 : (find COMMA raw).isSome = false) (h2 : isNumeric (strip raw) = false) :
+    forExpand snippet raw = none := by
+  unfold forExpand
+  by_cases he : raw.isEmpty = true <;> simp [he, h1, h2]
+
+/-- a body line for one item, token level: EACH / each / NUM / ALPH are substituted, every other
+    tag stays -/
+theorem C17_for_line (idx : Nat) (item : Str) (hv : Clean (strip item)) (hc : Clean (camelSmall (strip item)))
+    (hn : Clean (natToStr idx)) (l : Spec.SLine) (h : LineOK l) :
+    applySubst (eachChain idx item) (Spec.renderLine l) =
+      Spec.renderLine (Spec.substLine (Spec.byDict (eachKeys idx item)) l) :=
+  eachLine_render idx item hv hc hn l h
+
 /-! non-vacuity: a block with an assigned ELSEIF, an unassigned IF, defaults and verbatim tags -/
 section Example
 def exDict : List (Str × Str) := [(T "B", T "7"), (T "V", [])]
@@ -99,6 +143,15 @@ def exCond : Spec.Item :=
   .cond (T "  ") [(T "A", [.line [.lit (T "a")]]), (T "B", [.line [.lit (T "b "), .tag (T "B") none]]), (T "V", [.blank (T " ")])]
     (some [.line [.lit (T "else")]])
 example : doUserTags exDict (fun _ => true) [] exCond.render = some [T "b 7\n", T " \n"] := by decide
+def exFor : List Line := [T "first <<<FIRST>>>\n", T " v_<<<EACH>>> = <<<NUM>>><<<ALPH>>>;\n", T "last <<<LAST>>>\n"]
+example : NoBoth exFor := by
+  intro l hl
+  simp only [exFor, List.mem_cons, List.mem_nil_iff, or_false] at hl
+  rcases hl with e | e | e <;> subst e <;> decide
+example : forExpand exFor (T " fee, fie ,foe,") =
+    some [T "first fee\n", T " v_fee = 0a;\n", T " v_fie = 1b;\n", T " v_foe = 2c;\n", T "last foe\n"] := by decide
+example : forExpand exFor (T "2") = some [T "first _0_\n", T " v__0_ = 0a;\n", T " v__1_ = 1b;\n", T "last _1_\n"] := by decide
+example : forExpand exFor (T "0") = some [] ∧ forExpand exFor (T "word") = none := by decide
 end Example
 
 end KojenVerif.C17
